@@ -48,7 +48,7 @@ PROPS["C18"] = {"lean_modules": ["Vet.Props.C18"], "corr": [], "trusted": ["floc
 PROPS["C08"] = {"lean_modules": ["Vet.Props.C08"], "corr": ["corr.registry"], "trusted": ["crates.io index / API JSON shapes (mocked)", "semver ordering of published versions"], "assumptions": ["the mock network stands in for crates.io"],
                 "shards": {"quick": 4, "thorough": 8},
                 "explanation": "Theorems about the model of the unpublished-version choice, the audit-as-crates-io consistency check and the classification; tie: real cmd_check on disk against a mock registry over registry states, outcome class vs the model, oracles on the recorded choice and on the --locked run after publication."}
-PROPS["C17"] = {"lean_modules": ["Vet.Props.C17"], "corr": ["corr.suggest", "corr.wire"], "trusted": CORE_TRUST + ["diffstat (mocked |to^2 - from^2| offline)", "which versions have sources (offline rule)"], "assumptions": CORE_ASSUME,
+PROPS["C17"] = {"lean_modules": ["Vet.Props.C17", "Vet.Props.C17Heal"], "corr": ["corr.suggest", "corr.wire"], "trusted": CORE_TRUST + ["diffstat (mocked |to^2 - from^2| offline)", "which versions have sources (offline rule)"], "assumptions": CORE_ASSUME,
                 "explanation": "Theorems about the model of suggest_delta / compute_suggested_criteria / the de-duplication and the healing lemma on the audit graph; tie: the real compute_suggest on failing worlds, recommendation must be a least-cost member of the model's candidates; oracle: certify all proposals for their criteria and re-run the real resolver."}
 
 PROPS["C14"] = {"lean_modules": ["Vet.Props.C14"], "corr": ["corr.serde"], "trusted": ["toml / toml_edit text layer and the layout pass (exercised on the real code only)", "serde derive mechanics", "semver / date printing and parsing"], "assumptions": ["stores that can arise by parsing (no empty versioned policy map, no `:` in unversioned policy names)"],
